@@ -118,3 +118,27 @@ def run(F, R):
         else:
             R.check(any((c.declared or "").endswith("Serialize::serialize") for c in b.calls()) and not built(F, b), "R16.1", "transparent:" + name, b.where(),
                     "serialises the inner value with the same serializer", "%s is not transparent" % name)
+
+    R.rule("R16.3", "nothing is dropped and the shape does not depend on the content: every SerializeMap / SerializeStruct / SerializeSeq / SerializeTuple* "
+                    "element method inserts (or pushes) its serialised value on every path to Ok; MapDeserializer::deserialize_any calls visit_map on every path "
+                    "(an empty payload is still a map)")
+    n3 = 0
+    for b in F.find(r"^async_graphql_value::serializer::\{impl#\d+\}::(serialize_value|serialize_field|serialize_element|serialize_entry)$", kind="fn"):
+        ins = [c.bb for c in b.calls() if c.callee and re.search(r"indexmap::map::\{impl#\d+\}::insert$|vec::\{impl#\d+\}::push$", c.callee)]
+        oks = [a[0] for a in find_aggs(b, r"core::result::Result$") if a[1][3] == "Ok"]
+        if not ins and not oks:
+            continue
+        n3 += 1
+        key = "%s::%s" % ((b.impl_self or "?").split("::")[-1], b.name)
+        skip = [o for o in oks if o in b.reachable(0, avoid=ins)]
+        R.check(bool(ins) and not skip, "R16.3", "element-always-stored:" + key, b.where(), "insert/push on every path to Ok",
+                "%s can return Ok without storing the element (e.g. when it serialised to Null): entries are silently dropped from the value" % key)
+    R.floor("R16.3", "element-storing serializer methods", n3, 5)
+    md = [b for b in F.find(r"^async_graphql_value::deserializer::\{impl#\d+\}::deserialize_any$", kind="fn") if "MapDeserializer" in (b.impl_self or "")]
+    R.floor("R16.3", "MapDeserializer::deserialize_any", len(md), 1)
+    for b in md:
+        vm = [c.bb for c in b.calls() if (c.declared or "").endswith("Visitor::visit_map")]
+        other = [c for c in b.calls() if re.search(r"Visitor::visit_\w+$", c.declared or "") and not (c.declared or "").endswith("visit_map")]
+        R.check(bool(vm) and not other and all(b.must_pass(vm, e) for e in b.exits()), "R16.3", "MapDeserializer::deserialize_any:always-visit_map", b.where(), "visit_map on every path",
+                "MapDeserializer::deserialize_any can present its content as %s: the visited shape depends on the number of entries (an empty struct-variant payload "
+                "is no longer a map)" % sorted({(c.declared or '').split('::')[-1] for c in other}))
